@@ -161,8 +161,10 @@ def judgeRef (g : Ghost) (d : Dump) (r : Ref) : Verdict :=
         match tgt with
         | none => .pendingOk
         | some t =>
-          if ((pc &&& ~~~ 0xFFF#64) + disp == (t &&& ~~~ 0xFFF#64)) ∧ !wraps r.start then .correct
-          else if wraps r.start ∨ !representable k.fmt (t - pc) then .pendingOk
+          -- asmjit's ADRP format only represents targets congruent to the site modulo 4096 (`t - pc` a multiple of the
+          -- page size); anything else is refused at bind/resolve and stays counted, whatever the zero field happens to mean
+          if wraps r.start ∨ !representable k.fmt (t - pc) then .pendingOk
+          else if (pc &&& ~~~ 0xFFF#64) + disp == (t &&& ~~~ 0xFFF#64) then .correct
           else .bad "representable-adrp-not-resolved-or-wrong-page"
       else judgeRel tgt pc (wraps r.start) disp k.fmt
     | none => .bad "field-out-of-buffer"
